@@ -93,7 +93,14 @@ func generate(prop, tier string, rng *Rng) []Case {
 		}
 		return genLim(tier, rng, prop)
 	case "C05":
-		return genC05(tier, rng)
+		cs := genC05(tier, rng)
+		// complete, well-formed answers also where recompression, the cache and byte ranges meet (the aecache family)
+		for _, c := range genAeCache(tier, rng) {
+			if ac, ok := c.(aeCase); ok && len(ac.Ranges) == len(ac.AEs) {
+				cs = append(cs, c)
+			}
+		}
+		return cs
 	case "C14":
 		return genCrash(tier, rng)
 	case "C12", "C13":
